@@ -66,8 +66,14 @@ def h_step(ctx):
     elif klass == 'extended':
         ctx.assume(ctx.land(op == 0, hdr['opcode_base'] >= 1))
         if 'ext' in cfg:
-            # 0, uleb length (1 byte), extended opcode
-            ctx.assume(ctx.land((bs[1] & 0x80) == 0, bs[2] == cfg['ext']) if cfg['ext'] is not None else ctx.land((bs[1] & 0x80) == 0, bs[2] > 4))
+            # 0, uleb length (1 byte, or 2 bytes incl. padded encodings), extended opcode
+            if cfg.get('lenleb', 1) == 2:
+                ctx.assume(ctx.land((bs[1] & 0x80) != 0, (bs[2] & 0x80) == 0))
+                opb = bs[3]
+            else:
+                ctx.assume((bs[1] & 0x80) == 0)
+                opb = bs[2]
+            ctx.assume(opb == cfg['ext'] if cfg['ext'] is not None else opb > 4)
     else:
         ctx.assume(ctx.land(op >= 1, op < hdr['opcode_base'], op <= 12))
         if 'std' in cfg:
@@ -379,9 +385,10 @@ def _gen_instr(ctx, nm, spec, little, addr):
             return [0, 1 + len(body), 3] + body, 'ext'
         if ex == 4:
             return [0, 2, 4] + enc.uleb_enc(ctx.uint(nm, 7), 1), 'ext'
-        # unknown extended opcode with a payload of spec[2] bytes
+        # unknown extended opcode with a payload of spec[2] bytes; spec[3] = number of bytes of the (possibly padded) length
         pay = ctx.bytes(nm + '.pay', spec[2])
-        return [0, 1 + len(pay), ex] + pay, 'ext'
+        lb = enc.uleb_enc(1 + len(pay), spec[3] if len(spec) > 3 else 1)
+        return [0] + lb + [ex] + pay, 'ext'
     raise ValueError(spec)
 
 
@@ -495,6 +502,9 @@ def _step_instances(tier):
         out.append(dict(e, n=3 + (7 if tier == 'quick' else 9), klass='extended', ext=3))
         out.append(dict(e, n=3 + nleb, klass='extended', ext=4))
         out.append(dict(e, n=8, klass='extended', ext=None))
+        out.append(dict(e, n=9, klass='extended', ext=None, lenleb=2))
+        out.append(dict(e, n=6, klass='extended', ext=4, lenleb=2))
+        out.append(dict(e, n=5, klass='extended', ext=1, lenleb=2))
     return out
 
 
@@ -531,6 +541,7 @@ def _seq_instances(tier):
         'const-fixed': [['std', 8], ['std', 9], ['std', 1]],
         'advline-isa-disc': [['std', 3, 2], ['std', 12], ['ext', 4], ['special'], ['special']],
         'unknown-ext': [['ext', 0x80, 3], ['special'], ['ext', 9, 0], ['std', 1]],
+        'unknown-ext-long-length': [['ext', 0x81, 2, 2], ['special'], ['ext', 0x21, 0, 3], ['std', 1]],
         'define-file': [['ext', 3], ['std', 1]],
         'empty': [],
     }
